@@ -696,6 +696,44 @@ def cli_invalid(ctx):
     shutil.rmtree(d, ignore_errors=True)
 
 
+def literal_n_case(ctx, rng, fixed=None):
+    """-N: an N in the adapter is an ordinary character, it counts towards the length that the error rate is multiplied
+    with; where that makes the difference between no and one allowed error, an occurrence with one base missing is found
+    (indels are the default) - for anchored adapters like for all others."""
+    from cutadapt.parser import make_adapters_from_specifications
+    import cutadapt.adapters as A
+
+    L, n_n = rng.choice([(10, 2), (10, 1), (12, 3), (20, 5), (7, 1)])
+    rate = {10: 0.1, 12: 0.09, 20: 0.06, 7: 0.15}[L]
+    seq = list("".join(rng.choice("ACGT") for _ in range(L)))
+    for p in rng.sample(range(L), n_n):
+        seq[p] = "N"
+    seq = "".join(seq)
+    kind = rng.choice(["^", "$", "", "X"])
+    if fixed:
+        seq, kind, rate, L = fixed["seq"], fixed["kind"], fixed["rate"], len(fixed["seq"])
+    typ = "front" if kind == "^" else rng.choice(["back"]) if kind != "" else "back"
+    spec = {"^": "^" + seq, "$": seq + "$", "": seq, "X": seq + "X"}[kind]
+    cls = {"^": A.PrefixAdapter, "$": A.SuffixAdapter, "": A.BackAdapter, "X": A.NonInternalBackAdapter}[kind]
+    sp = dict(max_errors=rate, min_overlap=3, read_wildcards=False, adapter_wildcards=False, indels=True)
+    problems = []
+    case = dict(spec=spec, filetext=None, glob=dict(e=rate, o=3, indels=True, aw=False, rw=False), typ=typ, literal_n=dict(seq=seq, kind=kind, rate=rate))
+    ctx.case(("literal-n", spec, rate))
+    ctx.count("literal_n_cases")
+    try:
+        ads = make_adapters_from_specifications([(typ, spec)], sp)
+    except Exception as e:
+        ctx.violation("rejected", f"valid specification {spec!r} under -N raised {type(e).__name__}: {e}", case, klass="rejected")
+        return
+    ex = dict(cls=cls, seq=seq, rate=rate, o=L if kind in ("^", "$") else 3, indels=True, fa=False, aw=False, rw=False)
+    if type(ads[0]) is not cls:
+        problems.append(("class", f"{spec}: built {type(ads[0]).__name__}, documented {cls.__name__}"))
+    else:
+        probe_indels(ads[0], ex, problems, spec + " under -N")
+    for kind_, text in problems:
+        ctx.violation(kind_, f"{text}; global={case['glob']} type={typ}", case, klass=kind_)
+
+
 def run_shard(ctx):
     rng = ctx.rng("c18")
     n = ctx.scale(2500, 80000)
@@ -706,6 +744,8 @@ def run_shard(ctx):
         gen_and_check(ctx, rng)
         if i % 12 == 0:
             gen_invalid(ctx, rng)
+        if i % 25 == 0:
+            literal_n_case(ctx, rng)
     for k in range(ctx.scale(12, 200)):
         cli_attributes_case(ctx, ctx.shard * 100000 + k)
     if ctx.shard == 0:
@@ -732,6 +772,10 @@ def replay(ctx, case):
             print("rejected:", e)
         except Exception as e:
             ctx.violation("invalid-crashes", f"{type(e).__name__}: {e}", case)
+        return
+    if case.get("literal_n"):
+        import random
+        literal_n_case(ctx, random.Random(0), fixed=case["literal_n"])
         return
     glob = case["glob"]
     sp = dict(max_errors=glob["e"], min_overlap=glob["o"], read_wildcards=glob["rw"], adapter_wildcards=glob["aw"], indels=glob["indels"])
